@@ -26,6 +26,10 @@ MD_EDGES = [
     "{1: 2}", "{'a/b': 1}", "{'.': 1}", "{'': 1}", "{'a': {'b/c': 2}}", "{'metadatabundle': 1}", "{'x': {}}", "{}",
     "(True, False)", "[True, 1.5]", "(1.5, True)", "(np.float32(1), np.float32(2))", "[np.int8(1), 2.5]", "(1+2j, 3)",
     "float('inf')", "-0.0", "1e400", "complex('nan')", "object()", "np.float16(3.5)", "tuple([1] * 12)", "[np.zeros(1)] * 12",
+    # sequences with more than ten members, of every kind the writer stores member by member (member names "10", "11" sort
+    # before "2")
+    "tuple((i, i * 10) for i in range(12))", "['s%d' % i for i in range(12)]", "tuple('s%d' % i for i in range(11))",
+    "tuple(np.full(1, i) for i in range(12))", "[np.full((1, 2), i) for i in range(13)]", "tuple(range(12))", "[0.5 * i for i in range(11)]",
 ]
 NAME_EDGES = ["a/b", "/abs", "a//b", ".", "..", "", " ", "metadatabundle", "data", "dim0", "_tmp_x", "x" * 300, "x" * 70000,
               "a\x00b", "tab\there", "new\nline", "ünï/cöde", "a.b", "-", "0",
